@@ -100,8 +100,10 @@ def o11_2_db_open(mir, tier, variant='cleanup'):
         res.cases[('Ok ' if ok else 'Err ') + ','.join(evs)] = 1
         for label, post, m in ex.check_posts(posts, pc):
             rep = 'obsolete files are not removed' in label and not mval(m, wal_null) and not mval(m, need_snapshot)
+            walrep = 'does not name the current WAL' in label
             res.violations.append({'label': label, 'events': evs, 'model': {str(x): mval(m, x) for x in (wal_null, need_snapshot, need_compaction)},
-                                   'replay': ['reopen_orphan'] if rep else None, 'confirmed_by': None if rep else {'reproduced': False, 'detail': 'no native scenario for this label / case'}})
+                                   'replay': ['reopen_orphan'] if rep else (['two_wal_crash_reopen'] if walrep else None),
+                                   'confirmed_by': None if (rep or walrep) else {'reproduced': False, 'detail': 'no native scenario for this label / case'}})
     g = mir.mk_struct('GuardedDbFields', curr_wal_file_number=bv(5), version_set={'abstract': True, '__ty': 'VersionSet'})
     env = {'$state': {'events': []}, '$g': g}
     ex.top(fn, [{'abstract': True, '__ty': 'DbOptions'}], env, [], k)
@@ -117,6 +119,10 @@ def o11_2_db_open(mir, tier, variant='cleanup'):
 def o11_2_confirm(v, out):
     """Native: a closed database holds an orphan table file; a reopen that reuses log and manifest must remove it."""
     if out.get('_rc') != 0: return (False, 'native run failed: %s' % out.get('_stderr', '')[-300:])
+    if v['replay'][0] == 'two_wal_crash_reopen':
+        bad = out.get('dead_wal_kept') != 'false' or out.get('tables_after_first_reopen') != out.get('tables_after_second_reopen') or out.get('lost') != '0' or out.get('second_reopen') != 'ok'
+        return (bad, 'crash image with logs %s, reopened twice with log reuse: logs after the first reopen %s (a replayed log kept: %s), tables after the first / second reopen %s / %s, unreadable keys %s'
+                % (out.get('wals_at_crash'), out.get('wals_after_first_reopen'), out.get('dead_wal_kept'), out.get('tables_after_first_reopen'), out.get('tables_after_second_reopen'), out.get('lost')))
     return ('999' in out.get('after', '').split(','), 'table files before the reopen: [%s], after: [%s]' % (out.get('before'), out.get('after')))
 
 
